@@ -42,7 +42,7 @@ Section StepIf.
 
   Lemma cycle_start_eq s b u s1 b1 r :
     starts T B bime bpending s b ->
-    fetch T B brd (set_eip false s) b = (s1, b1) ->
+    fetch T B brd (set_eip false s) (commit B bset_ime s b) = (s1, b1) ->
     nth_error (cur s1) 0 = Some u -> cyc s1 = 0%nat ->
     mexec u s1 b1 = r ->
     cycle T B brd bwr btrig bcorrupt bime bset_ime bpending back (s, b) = (set_cyc (S (cyc (fst r))) (fst r), snd r).
